@@ -92,6 +92,14 @@ class Gen:
     def emit(self):
         sp, ix, w = self.spec, self.ix, self.w
         w('// generated from spec %s -- do not edit' % sp['name'])
+        w('#if defined(VF_SERIALIZE)')
+        w('#include <boost/archive/text_oarchive.hpp>')
+        w('#include <boost/archive/text_iarchive.hpp>')
+        w('#include <boost/archive/binary_oarchive.hpp>')
+        w('#include <boost/archive/binary_iarchive.hpp>')
+        w('#include <boost/serialization/array.hpp>')
+        w('#include <sstream>')
+        w('#endif')
         w('#include "vf_rt.hpp"')
         w('#include "vf_kits.hpp"')
         w('#include <boost/msm/front/operator.hpp>')
@@ -179,7 +187,15 @@ class Gen:
             raise ValueError(k)
         w('struct %s : %s {' % (cn, base))
         w('    static const char* vf_site() { return "%s"; }' % site)
+        w('#if defined(VF_SERIALIZE)')
+        w('    int vf_data = 0;')
+        if self.ser_optin(mn, sn):
+            w('    typedef int do_serialize;')
+            w('    template <class Ar> void serialize(Ar& ar, const unsigned int) { ar & vf_data; }')
+        w('    template <class Ev, class Fsm> void on_entry(Ev const& e, Fsm& f) { ++vf_data; vf::on_entry_cb(vf_site(), e, f); }')
+        w('#else')
         w('    template <class Ev, class Fsm> void on_entry(Ev const& e, Fsm& f) { vf::on_entry_cb(vf_site(), e, f); }')
+        w('#endif')
         w('    template <class Ev, class Fsm> void on_exit(Ev const& e, Fsm& f) { vf::on_exit_cb(vf_site(), e, f); }')
         w('    void accept() const { vf::vis_log().push_back(vf_site()); }')
         if s['flags']:
@@ -195,6 +211,13 @@ class Gen:
             w('        ' + ',\n        '.join(self.internal_expr(r) for r in s['internal']))
             w('    > {};')
         w('};')
+
+    def ser_optin(self, mn, sn):
+        """which states / front-ends opt in to serialization of their data (about half of them)"""
+        import zlib
+        if sn == '#fe':
+            return zlib.crc32(mn.encode()) % 3 != 0
+        return zlib.crc32(('%s.%s' % (mn, sn)).encode()) % 2 == 0
 
     def uses_defer(self, m):
         rows = list(m['table']) + list(m['internal'])
@@ -216,7 +239,15 @@ class Gen:
         w('struct %s_ : boost::msm::front::state_machine_def<%s_, VB> {' % (mn, mn))
         w('    static const char* vf_site() { return "%s"; }' % site)
         w('    static const char* vf_mname() { return "%s"; }' % mn)
+        w('#if defined(VF_SERIALIZE)')
+        w('    int vf_data = 0;')
+        if self.ser_optin(mn, '#fe'):
+            w('    typedef int do_serialize;')
+            w('    template <class Ar> void serialize(Ar& ar, const unsigned int) { ar & vf_data; }')
+        w('    template <class Ev, class Fsm> void on_entry(Ev const& e, Fsm& f) { ++vf_data; vf::on_entry_cb(vf_site(), e, f); }')
+        w('#else')
         w('    template <class Ev, class Fsm> void on_entry(Ev const& e, Fsm& f) { vf::on_entry_cb(vf_site(), e, f); }')
+        w('#endif')
         w('    template <class Ev, class Fsm> void on_exit(Ev const& e, Fsm& f) { vf::on_exit_cb(vf_site(), e, f); }')
         w('    template <class Fsm, class Ev> void no_transition(Ev const& e, Fsm& f, int s) { vf::no_transition_cb("%s", e, f, s); }' % mn)
         w('    template <class Fsm, class Ev> void exception_caught(Ev const& e, Fsm& f, std::exception& x) { vf::exception_cb("%s", e, f, x); }' % mn)
@@ -355,6 +386,14 @@ class Gen:
             '        snprintf(tmp, sizeof tmp, " %s=%%ld/%%ld", vf::Kit::msgq(%s), %s); o += tmp;' % (
                 ix.machine_path(m['name']), expr,
                 ('vf::Kit::defq(%s)' % expr) if self.level_has_deferral(m) else '-1L')])
+        w('#if defined(VF_SERIALIZE)')
+        w('        o += " DATA=";')
+        self._walk_levels(root, 'root', lambda m, expr: (
+            ['        snprintf(tmp, sizeof tmp, "%s#fe:%%d,", static_cast<%s_&>(%s).vf_data); o += tmp;' % (m['name'], m['name'], expr)]
+            if self.ser_optin(m['name'], '#fe') else []) + [
+            '        snprintf(tmp, sizeof tmp, "%s.%s:%%d,", %s.get_state<%s&>().vf_data); o += tmp;' % (m['name'], sn, expr, self.id_type(m, sn))
+            for sn, st in m['states'].items() if st['kind'] != 'sub' and self.ser_optin(m['name'], sn)])
+        w('#endif')
         # is_state_active (backmp11)
         w('#if defined(VF_FAM_MP11)')
         w('        o += " ACT=";')
